@@ -3,6 +3,9 @@
 mod flat;
 mod exec;
 mod threads;
+mod regs;
+mod timer;
+mod tables;
 
 use std::io::{self, BufRead, Write};
 use std::sync::atomic::{AtomicU64, Ordering};
@@ -45,6 +48,9 @@ fn main() {
     match cmd {
         "exec" => exec::main(),
         "threads" => threads::main(),
+        "regs" => regs::main(),
+        "timer" => timer::main(),
+        "tables" => tables::main(),
         _ => {
             eprintln!("usage: vrt <exec|...>");
             std::process::exit(64);
